@@ -483,7 +483,8 @@ impl Config {
                             })?;
                         let base: u32 = subnet.network().into();
                         let addresses = addresses.get_or_insert_with(Vec::new);
-                        for i in 1..(((1 << (32 - subnet.prefixlen)) - 1) - 1) {
+                        /* Everything except the first (network) and last (broadcast) address */
+                        for i in 1..((1 << (32 - subnet.prefixlen)) - 1) {
                             addresses.push((base + i).into())
                         }
                     }
